@@ -35,55 +35,68 @@ def writers_of(F, owner, fld):
 
 
 def _observer_only(F, owner, fld):
-    """every read of the field is either part of its own update (`f = f op x`) or sits in a function that does nothing but hand the field
-    out (no calls, no other state written, a single straight-line block): the field observes the computation and cannot steer it"""
+    """The field observes the computation and cannot steer it: in every function, what is read from the field flows (through temporaries,
+    arithmetic and calls of functions outside the two crates such as Ord::max or saturating_add) only back into the field itself, or out of
+    a pure accessor (one straight-line block, no calls).  It never reaches a branch condition, a call of a crate function, or another
+    place."""
+    def reads(p):
+        return cfg.touches_field(p, owner, fld)
     for k, f in F.fns.items():
         if f.crate != "saphyr_parser" or "::test" in k or f.d.get("derived"):
             continue
-        own_updates = set()
-        for bi, si, s in cfg.stmts(f):
-            if s["k"] == "assign" and cfg.touches_field(s["lhs"], owner, fld):
-                own_updates.add((bi, si))
-        for bi, b in enumerate(f.blocks):
-            if b["cleanup"]:
-                continue
-            reads_here = False
-            for si, s in enumerate(b["stmts"]):
-                if s["k"] != "assign":
+        if not any(reads(p) for bi, si, s in cfg.stmts(f) if s["k"] == "assign" for p in cfg.rv_places(s["rv"])) and \
+                not any(op_place(a) is not None and reads(op_place(a)) for _, t, _, _ in f.calls() for a in t["args"]):
+            continue
+        nblocks = [b for b in f.blocks if not b["cleanup"]]
+        # a pure accessor: straight-line code (spliced helpers may add jumps), no calls, no branches, nothing written through self
+        accessor = not list(f.calls()) and all(b["term"]["k"] in ("goto", "return", "assert") for b in nblocks) and \
+            not any(s["k"] == "assign" and s["lhs"]["l"] == 1 and s["lhs"]["p"] for b in nblocks for s in b["stmts"])
+        if accessor:
+            continue
+        T = set()
+        changed = True
+        while changed:
+            changed = False
+            for bi, b in enumerate(f.blocks):
+                if b["cleanup"]:
                     continue
-                if any(cfg.touches_field(p, owner, fld) for p in cfg.rv_places(s["rv"])):
-                    # the value read must flow only into the field itself: the statement (or the one consuming its temporary) is an own update
-                    l = s["lhs"]
-                    if (bi, si) in own_updates:
+                for s in b["stmts"]:
+                    if s["k"] != "assign":
                         continue
-                    if not l["p"]:
-                        uses = [(b2, i2) for b2, i2, s2 in cfg.stmts(f) if s2["k"] == "assign" and any(p["l"] == l["l"] for p in cfg.rv_places(s2["rv"]))]
-                        if uses and all(u in own_updates or _feeds_only(f, u, own_updates, l["l"]) for u in uses):
-                            continue
-                    reads_here = True
-            t = b["term"]
-            if t["k"] == "call" and any((op_place(a) is not None and cfg.touches_field(op_place(a), owner, fld)) for a in t["args"]):
-                reads_here = True
-            if t["k"] == "switch" and op_place(t["discr"]) is not None and cfg.touches_field(op_place(t["discr"]), owner, fld):
-                return False
-            if reads_here:
-                accessor = len([x for x in f.blocks if not x["cleanup"]]) == 1 and not list(f.calls()) and \
-                    not any(s["k"] == "assign" and s["lhs"]["l"] == 1 and s["lhs"]["p"] for s in f.blocks[0]["stmts"])
-                if not accessor:
-                    return False
+                    src = any(reads(p) or (p["l"] in T) for p in cfg.rv_places(s["rv"]))
+                    if not src:
+                        continue
+                    lhs = s["lhs"]
+                    if reads(lhs):
+                        continue
+                    if lhs["p"]:
+                        return False          # stored somewhere else
+                    if lhs["l"] == 0:
+                        return False          # returned by something that is not a pure accessor
+                    if lhs["l"] not in T:
+                        T.add(lhs["l"])
+                        changed = True
+                t = b["term"]
+                if t["k"] == "call":
+                    tainted_arg = any((op_place(a) is not None and (reads(op_place(a)) or op_place(a)["l"] in T)) for a in t["args"])
+                    if tainted_arg:
+                        fr = t["f"].get("fn")
+                        ck = (fr.get("resolved") or fr["key"]) if fr else None
+                        if ck is None or ck in F.fns:
+                            return False      # handed to code of the crates (or an indirect call)
+                        d = t["dest"]
+                        if reads(d):
+                            pass
+                        elif d["p"] or d["l"] == 0:
+                            return False
+                        elif d["l"] not in T:
+                            T.add(d["l"])
+                            changed = True
+                if t["k"] == "switch":
+                    p = op_place(t["discr"])
+                    if p is not None and (reads(p) or p["l"] in T):
+                        return False          # steers a branch
     return True
-
-
-def _feeds_only(f, use, own_updates, l):
-    """the statement `use` computes a temporary (checked arithmetic tuple) that is then stored into the field"""
-    b2, i2 = use
-    s2 = f.blocks[b2]["stmts"][i2]
-    if s2["lhs"]["p"]:
-        return False
-    t = s2["lhs"]["l"]
-    nxt = [(b3, i3) for b3, i3, s3 in cfg.stmts(f) if s3["k"] == "assign" and any(p["l"] == t for p in cfg.rv_places(s3["rv"]))]
-    asserts = all(True for _ in [0])
-    return bool(nxt) and all(u in own_updates for u in nxt)
 
 
 def readers_of(F, owner, fld):
@@ -349,7 +362,7 @@ def loader_anchor_isolation(rep, F):
             if w["kind"] == "assign" and not f.name.startswith("new") and f.name != "default":
                 cleared.append(short(k))
     cw = sorted(k for k, f in F.fns.items() if f.crate == "saphyr_parser" and cfg.field_writes(f, PARSER, "anchor_id_count")
-                and not f.name.startswith("new"))
+                and not f.name.startswith("new") and not (f.arg_count >= 1 and not f.locals[1]["ty"].startswith("&") and "Parser" in f.locals[1]["ty"]))
     mono = True
     for k in cw:
         f = F.fns[k]
